@@ -214,6 +214,49 @@ pub fn check(o: &FOutcome) -> Checked {
             }
         }
     }
+    // --- sticky routing: a queued job whose key is in nobody's hands does not wait while a worker has nothing at all.
+    // Judged only at *quiet* barriers (no job started or ended between sending the barrier's queries and their answers), from the
+    // factory's own numbers: U = accepted jobs neither started nor discarded; F = keys with a started, unfinished job; a job of U
+    // with a key outside F is either in the factory queue or was just handed to a worker that has not begun it - and such a worker
+    // counts as active without a started job. If there are more distinct free keys in U than such workers, some free key sits in
+    // the factory queue; with an idle worker in the factory's own count that is a violation.
+    if router == RouterKind::Sticky && o.cfg.rate.is_none() && !retiring && !o.cfg.priority_queue {
+        let mut sent_ts: Option<u64> = None;
+        for (ts, _ms, e) in &o.evs {
+            match e {
+                FEv::Op(s) if s == "barrier-sent" => sent_ts = Some(*ts),
+                FEv::Barrier { depth, active, live_children, expect_pool, .. } => {
+                    let Some(s0) = sent_ts.take() else { continue };
+                    let quiet = !o.evs.iter().any(|(t, _, e2)| *t > s0 && *t < *ts && matches!(e2, FEv::Start { .. } | FEv::End { .. } | FEv::WorkerGone { .. } | FEv::WorkerUp { .. } | FEv::Discard { .. }));
+                    let undisturbed = !gone.iter().any(|g| g.0 < *ts) && first_exit_op.map(|x| x > *ts).unwrap_or(true) && !o.evs.iter().any(|(t, _, e2)| *t < *ts && matches!(e2, FEv::Op(s) if s.starts_with("kill")));
+                    let pool = (*live_children).min(*expect_pool);
+                    if std::env::var("C14_DEBUG").is_ok() {
+                        eprintln!("barrier #{ts} s0={s0} quiet={quiet} undisturbed={undisturbed} depth={depth} active={active} pool={pool}");
+                    }
+                    if !quiet || !undisturbed || *depth == 0 || *active >= pool || o.cfg.pool == 0 {
+                        continue;
+                    }
+                    let in_flight: Vec<&Run> = runs.iter().filter(|r| r.start < s0 && r.end > s0).collect();
+                    let busy_keys: HashSet<K> = in_flight.iter().map(|r| r.key).collect();
+                    let started_workers: HashSet<usize> = in_flight.iter().map(|r| r.wid).collect();
+                    let unstarted: Vec<(u64, K)> = dispatch
+                        .iter()
+                        .filter(|(id, (dts, _, sent))| *sent && *dts < s0 && !discarded.contains(*id) && !runs.iter().any(|r| r.id == **id && r.start < *ts))
+                        .map(|(id, (_, k, _))| (*id, *k))
+                        .collect();
+                    let free_keys: HashSet<K> = unstarted.iter().map(|x| x.1).filter(|k| !busy_keys.contains(k)).collect();
+                    let handed_over = active.saturating_sub(started_workers.len());
+                    if std::env::var("C14_DEBUG").is_ok() {
+                        eprintln!("  eval #{ts}: busy={busy_keys:?} started_workers={started_workers:?} unstarted={unstarted:?} free={free_keys:?} handed_over={handed_over}");
+                    }
+                    if free_keys.len() > handed_over {
+                        v.push(("idle-while-queued".into(), format!("sticky routing, quiet barrier at #{ts}: {depth} jobs wait in the factory queue, {active} of {pool} workers are busy ({} of them with a started job), yet {} distinct keys among the waiting jobs ({:?}) are in no worker's hands", started_workers.len(), free_keys.len(), free_keys), "idle-while-queued sticky".into()));
+                    }
+                }
+                _ => {}
+            }
+        }
+    }
     if o.stuck {
         v.push(("stuck".into(), "factory scenario pending at the virtual-time horizon".into(), "stuck".into()));
     }
@@ -239,7 +282,7 @@ pub fn run(args: &Args, rep: &mut Report) {
     };
     for seed in seeds {
         crate::watch_begin(seed);
-        let cfg = if seed % 4 == 0 { gen_cfg_stale_report(seed) } else if seed % 4 == 1 { gen_cfg_settings(seed) } else { gen_cfg(seed, 14) };
+        let cfg = if seed % 4 == 0 { gen_cfg_stale_report(seed) } else if seed % 4 == 1 { gen_cfg_settings(seed) } else if seed % 8 == 2 { gen_cfg_sticky_grow(seed) } else { gen_cfg(seed, 14) };
         let o = run_scenario(seed, cfg);
         crate::watch_end();
         let c = check(&o);
